@@ -115,7 +115,8 @@ def instances(tier):
     t_w = dict(sig=[0], spk=[0], wit=[[1]])
     t_w2 = dict(sig=[1, 0], spk=[2], wit=[[], [0, 2]])
     t_e = dict(sig=[1], spk=[1], wit=[[]])
-    shapes = [[t_a], [t_w], [t_a, t_a], [t_a, t_w], [t_w, t_a], [t_a, t_b, t_w2], [t_w, t_w2, t_a], [t_e, t_a], [t_a, t_a, t_a]]
+    t_z = dict(sig=[1], spk=[1], wit=[[0]])
+    shapes = [[t_a], [t_w], [t_a, t_a], [t_a, t_w], [t_w, t_a], [t_a, t_b, t_w2], [t_w, t_w2, t_a], [t_e, t_a], [t_a, t_a, t_a], [t_a, t_z], [t_z]]
     if tier != 'quick':
         shapes += [[t_a, t_b, t_w, t_w2], [t_w2] * 5, [t_a] * 7]
     for sh in shapes:
